@@ -18,6 +18,7 @@ CONSTANTS
   MaxClock = 0
   PreSynced = FALSE
   InboxCap = 1000000
+  Mortal = {}
   EagerNet = FALSE
   DelayValues = {}
   VaryAll = TRUE
